@@ -123,7 +123,27 @@ def extract_schema_rules(repo_root):
         "challenges": schema["properties"]["challenges"].get("minItems", 0),
         "documents": schema["properties"]["corpora"]["items"]["properties"]["documents"].get("minItems", 0),
     }
-    return {"minima": a + dmins, "required": required, "min_items": min_items}
+    types, refs = [], []
+
+    def walk(node, path):
+        if not isinstance(node, dict):
+            return
+        if "$ref" in node:
+            refs.append((path, node["$ref"]))
+        t = node.get("type")
+        if isinstance(t, str):
+            types.append((path, t))
+        elif t is not None:
+            raise ValueError(f"schema: unsupported type declaration at {path}: {t!r}")
+        for k, sub in (node.get("properties") or {}).items():
+            walk(sub, path + "/properties/" + k)
+        if isinstance(node.get("items"), dict):
+            walk(node["items"], path + "/items")
+        for k, sub in (node.get("definitions") or {}).items():
+            walk(sub, "#/definitions/" + k)
+
+    walk(schema, "#")
+    return {"minima": a + dmins, "required": required, "min_items": min_items, "draft": schema.get("$schema", ""), "types": types, "refs": refs}
 
 
 def translate(repo_root):
@@ -152,6 +172,15 @@ def translate(repo_root):
     S.append("def minItems : List (Str × Nat) := [")
     S.append(",\n".join(f"  ({lean_str(k)}, {int(v)})" for k, v in sr["min_items"].items()))
     S.append("]")
+    S.append("/-- the `$schema` draft: it decides what `type: integer` means (draft-04: never a float) -/")
+    S.append(f"def draft : Str := {lean_str(sr['draft'])}")
+    S.append("/-- every `type` declaration of the schema file: (position, declared type) -/")
+    S.append("def types : List (Str × Str) := [")
+    S.append(",\n".join(f"  ({lean_str(k)}, {lean_str(v)})" for k, v in sr["types"]))
+    S.append("]")
+    S.append("def refs : List (Str × Str) := [")
+    S.append(",\n".join(f"  ({lean_str(k)}, {lean_str(v)})" for k, v in sr["refs"]))
+    S.append("]")
     S.append("def reserved : List Str := [" + ", ".join(lean_str(x) for x in reserved) + "]")
     S.append(f"def minVersion : Int := {int(loader.TrackFileReader.MINIMUM_SUPPORTED_TRACK_VERSION)}")
     S.append(f"def maxVersion : Int := {int(loader.TrackFileReader.MAXIMUM_SUPPORTED_TRACK_VERSION)}")
@@ -161,7 +190,7 @@ def translate(repo_root):
     S.append(f"def bulk : Str := {lean_str(track.Documents.SOURCE_FORMAT_BULK)}")
     S += ["", "end RallyGen.SchemaRules", ""]
     _write_if_changed(os.path.join(LEAN_DIR, "RallyGen", "SchemaRules.lean"), "\n".join(S))
-    return {"optypes": len(rows), "minima": sr["minima"], "reserved": reserved}
+    return {"optypes": len(rows), "minima": sr["minima"], "reserved": reserved, "draft": sr["draft"], "typed_positions": len(sr["types"])}
 
 
 
@@ -968,8 +997,36 @@ class Writer:
             return v + self.rng.choice([1, 7, 1000])
         return v + "-other"
 
+    def int_float(self, v, reg):
+        """a float with zero fractional part: written as a literal, in exponent notation, or *computed* by Jinja
+        (true division, float filter) — every form renders to JSON text that json.loads reads as the float `v`"""
+        r = self.rng
+        forms = ["literal", "exponent", "division-default", "float-filter"] + (["division-supplied"] if reg else [])
+        k = r.choice(forms)
+        iv = int(v)
+        text = None
+        if k == "literal":
+            text = repr(v)
+        elif k == "exponent":
+            text = "%.6e" % v
+        else:
+            p = self.pname("num")
+            if reg:
+                self.used.add(p)
+            if k == "division-default":
+                text = f"{{{{ {p} | default({2 * iv}) / 2 }}}}"
+            elif k == "division-supplied":
+                self.params[p] = 2 * iv
+                text = f"{{{{ {p} / 2 }}}}"
+            else:
+                text = f"{{{{ {p} | default({iv}) | float }}}}"
+        self.features.add("int-float:" + k)
+        return text
+
     def leaf(self, v, reg):
         r = self.rng
+        if isinstance(v, float) and v.is_integer() and abs(v) < 2**52:
+            return self.int_float(v, reg)
         lit = json.dumps(v, ensure_ascii=r.random() < 0.5)
         if self.np > 40 or not self.maybe(self.p_leaf):
             return lit
@@ -1115,7 +1172,7 @@ class Writer:
     def emit_indices(self, indices, reg):
         items = []
         for ix in indices:
-            if isinstance(ix, dict) and ix.get("name") in self.body_files and "body" in ix:
+            if isinstance(ix, dict) and isinstance(ix.get("name"), str) and ix.get("name") in self.body_files and "body" in ix:
                 fn = self.body_files[ix["name"]]
                 # the body template is rendered with the track parameters, too (registered)
                 self.allow_set = False
@@ -1699,6 +1756,67 @@ def outcome(x):
     return "ok" if "ok" in x else x["err"]
 
 
+# ---------------------------------------------------------------------------------------------
+# declared types of the SCHEMA FILE, walked together with a raw document
+# ---------------------------------------------------------------------------------------------
+_SCHEMA = None
+
+
+def track_schema():
+    global _SCHEMA
+    if _SCHEMA is None:
+        from harness.framework import REPO
+
+        _SCHEMA = json.load(open(os.path.join(REPO, "esrally", "resources", "track-schema.json")))
+    return _SCHEMA
+
+
+def kind_of(v):
+    if v is None:
+        return "null"
+    if isinstance(v, bool):
+        return "bool"
+    if isinstance(v, int):
+        return "int"
+    if isinstance(v, float):
+        return "intFloat" if v.is_integer() else "float"
+    if isinstance(v, str):
+        return "str"
+    if isinstance(v, list):
+        return "arr"
+    return "obj"
+
+
+def typed_positions(doc):
+    """every value of `doc` at a position for which the schema file declares a `type`:
+    dicts {type, kind, path, container, key} (container/key = where to overwrite it; None for the root)"""
+    root = track_schema()
+    out = []
+
+    def walk(node, inst, path, container, key):
+        if not isinstance(node, dict):
+            return
+        if "$ref" in node:
+            ref = node["$ref"]
+            tgt = root
+            for part in ref.lstrip("#/").split("/"):
+                tgt = tgt[part]
+            node, path = tgt, ref
+        t = node.get("type")
+        if isinstance(t, str):
+            out.append({"type": t, "kind": kind_of(inst), "path": path, "container": container, "key": key})
+        if isinstance(inst, dict) and isinstance(node.get("properties"), dict):
+            for k, sub in node["properties"].items():
+                if k in inst:
+                    walk(sub, inst[k], path + "/properties/" + k, inst, k)
+        if isinstance(inst, list) and isinstance(node.get("items"), dict):
+            for i, x in enumerate(inst):
+                walk(node["items"], x, path + "/items", inst, i)
+
+    walk(root, doc, "#", None, None)
+    return out
+
+
 # diagnostic layer (never a verdict): the rule the model names vs. the wording of the real message
 RULE_MSG = {
     "missing": "Mandatory element", "operationMissing": "Operation missing from task spec", "indicesAndDataStreams": "cannot both be specified",
@@ -1717,7 +1835,8 @@ RULE_MSG = {
 def run_case(ctx, case):
     kind = case["kind"]
     impl = run_impl(case["files"], case["params"] or None, case["sel"], case.get("track_file", "track.json"))
-    m = ctx.model("trackspec", "load", {"spec": case["spec"], "sel": case["sel"], "user": sorted(case["params"].keys()), "used": case["used"]})
+    typed = [[e["type"], e["kind"]] for e in typed_positions(case["spec"])]
+    m = ctx.model("trackspec", "load", {"spec": case["spec"], "sel": case["sel"], "user": sorted(case["params"].keys()), "used": case["used"], "typed": typed})
     mm = {"ok": norm(m["r"])} if "r" in m else {"err": m["err"]}
     canon = sort_challenges if case.get("unordered_challenges") else (lambda x: x)
     # 1. correspondence: model vs. implementation (outcome class, and the loaded track field by field)
@@ -1734,7 +1853,7 @@ def run_case(ctx, case):
         d = first_difference(canon(mm["ok"]), canon(impl["ok"]))
         if d:
             ctx.diff("loaded track differs: " + d, None, None)
-    if "ok" in impl:
+    if "ok" in impl and "ok" in mm:
         dn = ctx.model("trackspec", "denote", {"spec": case["spec"], "sel": case["sel"]})
         d = first_difference(canon(norm(dn["r"])), canon(impl["ok"]))
         if d:
@@ -1772,6 +1891,84 @@ def run_case(ctx, case):
 
 
 # ---------------------------------------------------------------------------------------------
+# schema_types stream: one value of the wrong JSON kind at a position whose type the schema file declares
+# ---------------------------------------------------------------------------------------------
+def wrong_values(decl, cur):
+    """(label, value) pairs whose JSON kind violates the declared type `decl` (draft-04 semantics)"""
+    if decl == "integer":
+        base = cur if isinstance(cur, int) and not isinstance(cur, bool) else 4
+        return [("same-value-as-float", float(base)), ("float-1e3", 1000.0), ("float-fraction", base + 0.5), ("string", str(base)),
+                ("true", True), ("null", None), ("array", [base])]
+    if decl == "number":
+        return [("string", "1"), ("null", None), ("true", True), ("array", [1])]
+    if decl == "string":
+        return [("integer", 5), ("float", 4.0), ("null", None), ("array", ["x"]), ("false", False), ("object", {})]
+    if decl == "boolean":
+        return [("string-true", "true"), ("one", 1), ("zero", 0), ("null", None), ("float", 1.0)]
+    if decl == "object":
+        return [("array", []), ("string", "m"), ("integer", 5), ("null", None)]
+    if decl == "array":
+        return [("object", {}), ("string", "x"), ("integer", 5), ("null", None)]
+    return []
+
+
+def ensure_positions(rng, spec):
+    """make sure positions of every declared type occur in the document"""
+    t = fresh_leaf(rng, spec)
+    t.update({"clients": 3, "iterations": 5, "warmup-iterations": 0, "meta": {"a": 1}, "target-interval": 2})
+    p = fresh_parallel(rng, spec, **{"clients": 2, "time-period": 60, "warmup-time-period": 10, "ramp-up-time-period": 10, "completed-by": "any"})
+    p["tasks"][0].update({"clients": 2, "schedule": "poisson", "time-period": 30, "run-on-serverless": True, "meta": {"b": 2}})
+    if not spec.get("corpora"):
+        reset_data(spec, indices=1)
+        spec["indices"][0]["types"] = ["t"]
+        spec["corpora"] = [simple_corpus({"compressed-bytes": 5, "uncompressed-bytes": 50, "includes-action-and-meta-data": True, "meta": {"c": 3}},
+                                         {"includes-action-and-meta-data": False, "base-url": "http://localhost/x", "meta": {"d": 4}})]
+    spec.setdefault("version", 2)
+    spec.setdefault("meta", {"e": 5})
+    spec.setdefault("description", "typed")
+    spec.setdefault("dependencies", ["numpy"])
+    ops = spec.setdefault("operations", [])
+    ops.append({"name": "typed-op-%d" % rng.randrange(10**6), "operation-type": "bulk", "bulk-size": 100, "request-timeout": 1.5, "cache": True,
+                "clients": {"count": 2, "compression": False}, "meta": {"f": 6}, "body": {}})
+
+
+DECLS = ["integer", "integer", "integer", "string", "boolean", "object", "array", "number"]
+
+
+def gen_schema_types(ctx):
+    rng = ctx.rng
+    for k in range(ctx.budget):
+        n = ctx.shard * ctx.budget + k
+        g = Gen(rng)
+        spec, exp, sel = g.track()
+        body_files = add_index_bodies(rng, spec, exp)
+        spec = copy.deepcopy(spec)
+        ensure_positions(rng, spec)
+        decl = DECLS[n % len(DECLS)]
+        # index bodies are file names as far as the schema is concerned and untyped: not touched
+        pos = [e for e in typed_positions(spec) if e["type"] == decl and e["container"] is not None]
+        e = rng.choice(pos)
+        cur = e["container"][e["key"]]
+        wv = wrong_values(decl, cur)
+        label, val = wv[(n // len(DECLS)) % len(wv)]  # the wrong kinds cycle, the position is random
+        is_version = e["path"] == "#/properties/version"
+        if is_version:
+            # the version check runs before schema validation: only a float equal to the supported version reaches the schema
+            label, val = "same-value-as-float", float(cur)
+        e["container"][e["key"]] = val
+        case = build_case(rng, "violation", spec, None, sel, rng.choice([0, 1, 2]), rule=f"schema-type:{decl}-given-{label}", expect=SYN,
+                          body_files=body_files, features=g.features)
+        case["position"] = e["path"]
+        yield case
+
+
+def run_schema_types(ctx, case):
+    ctx.count("position:" + case["position"])
+    ctx.count("declared:" + case["rule"].split(":")[1].split("-given-")[0])
+    run_case(ctx, case)
+
+
+# ---------------------------------------------------------------------------------------------
 # malformed stream: schema *type* violations and broken templates (exception class only, no model)
 # ---------------------------------------------------------------------------------------------
 def typed_locations(spec):
@@ -1794,7 +1991,7 @@ def typed_locations(spec):
             for t in tgt:
                 for k in ("clients", "iterations", "warmup-iterations", "time-period", "warmup-time-period", "ramp-up-time-period"):
                     if k in t:
-                        locs.append((t, k, ["2", 2.5, -1, True, None, [1]]))
+                        locs.append((t, k, ["2", 2.5, -1, True, None, [1], 4.0, 1000.0]))
                 if "name" in t:
                     locs.append((t, "name", [5, None, {}]))
                 if "meta" in t:
@@ -1809,7 +2006,7 @@ def typed_locations(spec):
         locs.append((o, "name", [5, None]))
         locs.append((o, "operation-type", [5, None, []]))
         if "bulk-size" in o:
-            locs.append((o, "bulk-size", [0, "5", 1.5]))
+            locs.append((o, "bulk-size", [0, "5", 1.5, 100.0]))
         if "mode" in o:
             locs.append((o, "mode", ["other", 1]))
         if "conflicts" in o:
@@ -1821,10 +2018,10 @@ def typed_locations(spec):
         locs.append((c, "documents", [{}, "d"]))
         for d in c["documents"]:
             locs.append((d, "source-file", [5, None, []]))
-            locs.append((d, "document-count", ["5", 2.5, -1, None]))
+            locs.append((d, "document-count", ["5", 2.5, -1, None, 5.0]))
             for k in ("compressed-bytes", "uncompressed-bytes"):
                 if k in d:
-                    locs.append((d, k, ["5", -1]))
+                    locs.append((d, k, ["5", -1, 7.0]))
             if "includes-action-and-meta-data" in d:
                 locs.append((d, "includes-action-and-meta-data", ["true", 1]))
             for k in ("target-index", "target-type", "base-url", "source-format"):
@@ -1841,7 +2038,7 @@ def typed_locations(spec):
                      ("dependencies", ["d", [1], {}])):
         if k in spec:
             locs.append((spec, k, wrong))
-    locs.append((spec, "version", [2.5, "2", "two"]))
+    locs.append((spec, "version", [2.5, "2", "two", 2.0]))
     return locs
 
 
@@ -2008,6 +2205,7 @@ def run_splitext(ctx, case):
 STREAMS = [
     Stream("valid_tracks", gen_valid, run_case, quick=1280, thorough=24000, shards=16),
     Stream("rule_violations", gen_violations, run_case, quick=896, thorough=16800, shards=16),
+    Stream("schema_types", gen_schema_types, run_schema_types, quick=960, thorough=16000, shards=16),
     Stream("malformed", gen_malformed, run_malformed, quick=504, thorough=8400, shards=8),
     Stream("operation_types", gen_optypes, run_optypes, quick=400, thorough=20000, shards=2),
     Stream("splitext", gen_splitext, run_splitext, quick=1000, thorough=40000, shards=2),
